@@ -60,6 +60,15 @@ def classify(loop):
         conts = [s for s in ast.walk(loop) if isinstance(s, ast.Continue)]
         if incr and not conts:
             return 'bounded-counter', 'counter %s increases at the end of every iteration' % i
+    # membership counter: `while i in coll: i += 1` (coll finite, not modified in the loop)
+    if isinstance(test, ast.Compare) and len(test.ops) == 1 and isinstance(test.ops[0], ast.In) and isinstance(test.left, ast.Name):
+        i = test.left.id
+        coll = norm(test.comparators[0])
+        incr = [s for s in body if isinstance(s, ast.AugAssign) and isinstance(s.op, ast.Add) and norm(s.target) == i]
+        grows = [c for c in calls_in(loop) if isinstance(c.func, ast.Attribute) and norm(c.func.value) == coll and c.func.attr in ('add', 'append', 'update', 'setdefault', '__setitem__')]
+        stores = [s for s in ast.walk(loop) if isinstance(s, ast.Assign) and any(isinstance(t, ast.Subscript) and norm(t.value) == coll for t in s.targets)]
+        if incr and len(body) == len(incr) and not grows and not stores:
+            return 'bounded-counter', 'counter %s walks a finite collection %s that the loop does not modify' % (i, coll)
     # shrinking worklist: while True: if K not in D: break ; ... D.pop(K)
     if isinstance(test, ast.Constant) and test.value is True and body and isinstance(body[0], ast.If) and any(isinstance(b, ast.Break) for b in body[0].body):
         t = body[0].test
